@@ -25,3 +25,4 @@ Definition t_issue := issue sterm S0 SS.
 Definition t_validate := validate sterm S0 SS sterm_eqb.
 Definition t_add_caveat := add_caveat sterm SS.
 Definition t_mint := mint sterm S0 SS.
+Definition t_validate_at := validate_at sterm S0 SS sterm_eqb.
